@@ -178,17 +178,22 @@ impl<W: 'static, R: 'static, T: 'static> XGenerator<W, R, T> {
                     })
                     .collect::<Vec<BIter<_, _, _>>>();
                 iter::from_fn(move || {
-                    iters
-                        .iter_mut()
-                        .map(|i| i.next())
-                        .collect::<Option<Result<Result<Vec<_>, _>, _>>>()
-                        .map(|items| {
-                            ManagedXValue::new(
-                                XValue::StructInstance(forward_err!(items?)),
-                                rt.clone(),
-                            )
-                            .map(Ok)
-                        })
+                    let mut items = Vec::with_capacity(iters.len());
+                    let mut error = None;
+                    for i in iters.iter_mut() {
+                        match i.next()? {
+                            Err(violation) => return Some(Err(violation)),
+                            // keep pulling the other parts, so that the parts stay aligned
+                            Ok(Err(e)) => {
+                                error.get_or_insert(e);
+                            }
+                            Ok(Ok(v)) => items.push(v),
+                        }
+                    }
+                    if let Some(e) = error {
+                        return Some(Ok(Err(e)));
+                    }
+                    Some(ManagedXValue::new(XValue::StructInstance(items), rt.clone()).map(Ok))
                 })
             }),
             Self::Chain(arr) => either_f({
